@@ -60,6 +60,8 @@ pub struct Found {
     pub oracle: String,
     pub msg: String,
     pub replay: PathBuf,
+    /// found (and to be replayed) by the release-profile twin
+    pub release: bool,
 }
 
 pub struct CheckEnv {
@@ -512,6 +514,7 @@ pub fn write_replay(
         "tape": tape,
         "note": note,
         "trace": trace,
+        "profile": if cfg!(debug_assertions) { "dev (debug assertions on)" } else { "release (debug assertions off)" },
     });
     if let Some(d) = path.parent() {
         std::fs::create_dir_all(d)?;
@@ -570,6 +573,19 @@ fn cmd_replay(scenarios: &[Scenario], path: &str) -> i32 {
         eprintln!("replay: property {prop} is not served by this binary");
         return 2;
     };
+    if v["profile"].as_str().is_some_and(|p| p.starts_with("release")) && cfg!(debug_assertions) {
+        if let Some(twin) = release_twin() {
+            // this run was found by the release-profile twin: replay it there
+            return Command::new(twin)
+                .arg("replay")
+                .arg(path)
+                .status()
+                .ok()
+                .and_then(|s| s.code())
+                .unwrap_or(2);
+        }
+        println!("note: this replay was recorded by the release-profile binary; set VERIF_RELEASE_BIN (bin/replay does) to replay it faithfully");
+    }
     let oracle = v["oracle"].as_str().unwrap_or("").to_string();
     let tape = match v["tape"].as_array() {
         Some(a) => Tape::replay(a.iter().map(|x| x.as_u64().unwrap_or(0)).collect()),
@@ -805,6 +821,7 @@ fn cmd_worker(scenarios: &[Scenario], a: WorkerArgs) -> i32 {
                 found.push(json!({
                     "oracle": clean(&v2.oracle), "msg": clean(&v2.msg), "replay": path.to_string_lossy(),
                     "run_index": idx,
+                    "release": !cfg!(debug_assertions),
                 }));
             }
             if st.violating_runs >= 300 && st.known_hits.is_empty() {
@@ -894,6 +911,19 @@ struct Spawned {
     id: String,
     from: u64,
     to: u64,
+    release: bool,
+}
+
+/// The release-profile twin of this binary (debug assertions and overflow checks off), when
+/// bin/check built one: some of the runs are executed by it, so that behaviour that differs
+/// between debug and release builds (a side effect inside a debug_assert!, an unchecked
+/// constructor that only validates in debug) is explored too.
+fn release_twin() -> Option<PathBuf> {
+    if !cfg!(debug_assertions) {
+        return None;
+    }
+    let p = PathBuf::from(std::env::var_os("VERIF_RELEASE_BIN")?);
+    p.is_file().then_some(p)
 }
 
 fn spawn_worker(
@@ -919,7 +949,25 @@ fn spawn_worker_enum(
     hashes: bool,
     enum_n: u64,
 ) -> std::io::Result<Spawned> {
-    let exe = std::env::current_exe()?;
+    spawn_worker_exe(prop, seed, from, to, out, id, hashes, enum_n, None)
+}
+
+#[allow(clippy::too_many_arguments)]
+fn spawn_worker_exe(
+    prop: &str,
+    seed: u64,
+    from: u64,
+    to: u64,
+    out: &Path,
+    id: &str,
+    hashes: bool,
+    enum_n: u64,
+    exe: Option<&Path>,
+) -> std::io::Result<Spawned> {
+    let exe = match exe {
+        Some(e) => e.to_path_buf(),
+        None => std::env::current_exe()?,
+    };
     let mut c = Command::new(exe);
     c.arg("worker")
         .arg(prop)
@@ -950,6 +998,7 @@ fn spawn_worker_enum(
         id: id.to_string(),
         from,
         to,
+        release: false,
     })
 }
 
@@ -1025,6 +1074,7 @@ fn merge_worker(out: &Path, id: &str, m: &mut Merged) -> Result<(), String> {
                 oracle: f["oracle"].as_str().unwrap_or("").into(),
                 msg: f["msg"].as_str().unwrap_or("").into(),
                 replay: PathBuf::from(f["replay"].as_str().unwrap_or("")),
+                release: f["release"].as_bool().unwrap_or(false),
             });
         }
     }
@@ -1038,8 +1088,11 @@ fn merge_worker(out: &Path, id: &str, m: &mut Merged) -> Result<(), String> {
     Ok(())
 }
 
-fn confirm_replay(path: &Path, oracle: &str) -> Result<bool, String> {
-    let exe = std::env::current_exe().map_err(|e| e.to_string())?;
+fn confirm_replay(path: &Path, oracle: &str, release: bool) -> Result<bool, String> {
+    let exe = match (release, release_twin()) {
+        (true, Some(r)) => r,
+        _ => std::env::current_exe().map_err(|e| e.to_string())?,
+    };
     let out = Command::new(exe)
         .arg("replay")
         .arg(path)
@@ -1094,7 +1147,7 @@ fn cmd_check(scenarios: &[Scenario], prop: &str, tier: &str) -> i32 {
         bin_name()
     );
     let mut m = Merged::default();
-    let mut deaths: Vec<(u64, String, String)> = vec![];
+    let mut deaths: Vec<(u64, String, String, bool)> = vec![];
     let mut death_count = 0u64;
     let mut harness_fail: Option<String> = None;
 
@@ -1102,20 +1155,38 @@ fn cmd_check(scenarios: &[Scenario], prop: &str, tier: &str) -> i32 {
     // several chunks per worker slot: cheap dynamic balancing (enumerated cases, deep-nesting
     // documents and index-boundary runs have very different costs)
     let n_chunks = if runs >= 200_000 { workers * 6 } else { workers };
-    let per = runs.div_ceil(n_chunks).max(1);
-    let mut pending: Vec<(u64, u64)> = (0..n_chunks)
-        .map(|w| (w * per, ((w + 1) * per).min(runs)))
-        .filter(|(a, b)| a < b)
-        .collect();
+    let twin = release_twin();
+    // the last quarter of the run indexes is executed by the release-profile twin, if built
+    let release_from = if twin.is_some() { runs - seeded_runs / 4 } else { runs };
+    let mut pending: Vec<(u64, u64, bool)> = vec![];
+    for (lo, hi, rel) in [(0, release_from, false), (release_from, runs, true)] {
+        if hi <= lo {
+            continue;
+        }
+        let n = if rel { (n_chunks / 4).max(1) } else { n_chunks };
+        let per = (hi - lo).div_ceil(n).max(1);
+        let mut a = lo;
+        while a < hi {
+            pending.push((a, (a + per).min(hi), rel));
+            a += per;
+        }
+    }
+    // interleave release chunks with the others so that both kinds run from the start
+    pending.sort_by_key(|c| (c.0 % 7, c.0));
+    let release_runs = runs - release_from;
     let mut wcount = 0u64;
     let mut running: Vec<Spawned> = vec![];
     while !pending.is_empty() || !running.is_empty() {
         while running.len() < workers as usize && !pending.is_empty() {
-            let (a, b) = pending.remove(0);
+            let (a, b, rel) = pending.remove(0);
             let id = format!("w{wcount}");
             wcount += 1;
-            match spawn_worker_enum(prop, seed, a, b, &out, &id, false, enum_n) {
-                Ok(s) => running.push(s),
+            let exe = if rel { twin.as_deref() } else { None };
+            match spawn_worker_exe(prop, seed, a, b, &out, &id, false, enum_n, exe) {
+                Ok(mut s) => {
+                    s.release = rel;
+                    running.push(s)
+                }
                 Err(e) => {
                     harness_fail = Some(format!("cannot spawn worker: {e}"));
                     pending.clear();
@@ -1153,10 +1224,10 @@ fn cmd_check(scenarios: &[Scenario], prop: &str, tier: &str) -> i32 {
                         let _ = merge_worker(&out, &s.id, &mut m);
                         death_count += 1;
                         if deaths.len() < 8 && !deaths.iter().any(|d| d.2 == note && d.1 == why) {
-                            deaths.push((at, why, note));
+                            deaths.push((at, why, note, s.release));
                         }
                         if at + 1 < s.to && death_count < 5000 {
-                            pending.push((at + 1, s.to));
+                            pending.push((at + 1, s.to, s.release));
                         }
                     }
                 }
@@ -1174,9 +1245,10 @@ fn cmd_check(scenarios: &[Scenario], prop: &str, tier: &str) -> i32 {
 
     // confirm deaths by re-running the culprit alone in a fresh worker
     let mut violations: Vec<Found> = vec![];
-    for (at, why, note) in &deaths {
+    for (at, why, note, rel) in &deaths {
         let id = format!("confirm{at}");
-        let confirmed = match spawn_worker_enum(prop, seed, *at, at + 1, &out, &id, false, enum_n) {
+        let exe = if *rel { twin.as_deref() } else { None };
+        let confirmed = match spawn_worker_exe(prop, seed, *at, at + 1, &out, &id, false, enum_n, exe) {
             Ok(mut s) => match s.child.wait() {
                 Ok(st) => st.code() != Some(0) && st.code() != Some(2),
                 Err(_) => false,
@@ -1187,7 +1259,10 @@ fn cmd_check(scenarios: &[Scenario], prop: &str, tier: &str) -> i32 {
             let oracle = if why == "hang" { "hang" } else { "process_death" };
             let v = Violation::new(
                 oracle,
-                format!("{why} while executing run {at} [{note}] (confirmed alone in a fresh process)"),
+                format!(
+                    "{why} while executing run {at} [{note}]{} (confirmed alone in a fresh process)",
+                    if *rel { " [release-profile binary]" } else { "" }
+                ),
             );
             let path = vdir
                 .join("replays")
@@ -1203,11 +1278,20 @@ fn cmd_check(scenarios: &[Scenario], prop: &str, tier: &str) -> i32 {
                 &[],
                 "not minimised: the process dies, the run is identified by (seed, run_index)",
             );
+            if *rel {
+                if let Ok(txt) = std::fs::read_to_string(&path) {
+                    if let Ok(mut j) = serde_json::from_str::<Value>(&txt) {
+                        j["profile"] = json!("release (debug assertions off)");
+                        let _ = std::fs::write(&path, serde_json::to_string_pretty(&j).unwrap());
+                    }
+                }
+            }
             if sc.death_is_violation {
                 violations.push(Found {
                     oracle: oracle.into(),
                     msg: v.msg,
                     replay: path,
+                    release: false,
                 });
             } else {
                 harness_fail = Some(format!(
@@ -1230,7 +1314,7 @@ fn cmd_check(scenarios: &[Scenario], prop: &str, tier: &str) -> i32 {
             let _ = std::fs::remove_file(&f.replay);
             continue;
         }
-        match confirm_replay(&f.replay, &f.oracle) {
+        match confirm_replay(&f.replay, &f.oracle, f.release) {
             Ok(true) => violations.push(f),
             Ok(false) => {
                 harness_fail = Some(format!(
@@ -1305,6 +1389,7 @@ fn cmd_check(scenarios: &[Scenario], prop: &str, tier: &str) -> i32 {
             "real_components": sc.real_components,
             "stub_components": sc.stub_components,
             "workers": workers,
+            "runs_executed_by_release_profile_binary": release_runs,
             "enumerated_cases": enum_n,
             "enumerated_space": sc.enumerated.map_or("", |e| e.what),
             "known_findings_hit": m.known_hits,
